@@ -205,7 +205,7 @@ func (x *Exec) frameObligations(st *State, env *Env) {
 	ml := x.resolveModifies(st, x.spec, env.inOld())
 	i := Term{"i!fr", SInt}
 	for _, name := range sortedKeys(st.heap) {
-		if strings.HasPrefix(name, "cell:") || ml.coarse[name] || strings.Contains(name, ":fresh:") {
+		if strings.HasPrefix(name, "cell:") || ml.isCoarse(name) || strings.Contains(name, ":fresh:") {
 			continue
 		}
 		if strings.HasPrefix(name, "ghost.") && !x.spec.StrictGhost {
@@ -241,20 +241,38 @@ func (x *Exec) isObservable(e Event) bool {
 }
 
 func (x *Exec) matchEmits(st *State, env *Env, pats []EventPat) (Term, string) {
+	return x.matchEmitsLoop(st, env, pats, 0, 0)
+}
+
+// matchEmitsLoop matches the observable events emitted in loop `ord` (0 = outside loops) from index `from` on.
+func (x *Exec) matchEmitsLoop(st *State, env *Env, pats []EventPat, ord int, from int) (Term, string) {
 	var evs []Event
-	for _, e := range st.events {
+	for i, e := range st.events {
+		if i < from || e.Loop != ord {
+			continue
+		}
 		if x.isObservable(e) {
 			evs = append(evs, e)
 		}
 	}
-	if st.eventsInLoop {
-		return TFalse, "events are emitted inside a loop: use counters"
+	if ord == 0 {
+		for _, e := range st.events {
+			if e.Loop != 0 && x.isObservable(e) {
+				if ls := x.spec.Loops[e.Loop]; ls == nil || !ls.HasEmits {
+					return TFalse, fmt.Sprintf("events are emitted inside loop %d which declares no per-iteration emits", e.Loop)
+				}
+			}
+		}
 	}
 	// enumerate inclusion choices for conditional patterns
 	var conds []Term
 	for _, p := range pats {
 		if p.Cond != nil {
-			conds = append(conds, env.inOld().evalBool(p.Cond))
+			if ord != 0 {
+				conds = append(conds, env.evalBool(p.Cond))
+			} else {
+				conds = append(conds, env.inOld().evalBool(p.Cond))
+			}
 		} else {
 			conds = append(conds, TTrue)
 		}
@@ -448,6 +466,21 @@ func (x *Exec) loopEnv(st *State, li *loopInfo, phiVals map[string]Val) *Env {
 			}
 		}
 	}
+	// iterators of all loops by ordinal (V1, N1, V2, ...)
+	if fr := st.top(); fr != nil {
+		for _, l2 := range x.loops {
+			for _, in := range l2.header.Instrs {
+				if nx, ok := in.(*ssa.Next); ok {
+					if iv, ok := fr.locals[nx.Iter]; ok && iv.Iter != nil {
+						if it, ok := st.iters[iv.Iter.ID]; ok {
+							vars[fmt.Sprintf("V%d", l2.ord)] = Val{Typ: setType, C: []Term{it.Visited}}
+							vars[fmt.Sprintf("N%d", l2.ord)] = intVal(it.Count)
+						}
+					}
+				}
+			}
+		}
+	}
 	env.vars = vars
 	env.oldHeap = x.entry.heap
 	oa := x.entry.alloc
@@ -495,6 +528,7 @@ func (x *Exec) loopEnter(st *State, li *loopInfo, from *ssa.BasicBlock) {
 			return
 		}
 		st.inLoop[li.ord] = true
+		st.curLoop = li.ord
 		fr.prev, fr.block, fr.pc = from, li.header, 0
 		return
 	}
@@ -524,7 +558,9 @@ func (x *Exec) loopEnter(st *State, li *loopInfo, from *ssa.BasicBlock) {
 	dry := st.clone()
 	dry.dryWrites = map[string]bool{}
 	dry.dryFreshFrom = x.nfresh
+	dry.dryFnFresh = map[string]bool{}
 	dry.inLoop[li.ord] = true
+	dry.curLoop = li.ord
 	dfr := dry.top()
 	dfr.prev, dfr.block, dfr.pc = from, li.header, 0
 	dry.stopAt = map[*ssa.BasicBlock]bool{}
@@ -557,6 +593,10 @@ func (x *Exec) loopEnter(st *State, li *loopInfo, from *ssa.BasicBlock) {
 			// objects that existed at loop entry are untouched
 			i := Term{"i!lf", SInt}
 			st.assume(Forall([]Term{i}, Implies(And(Ge(i, TZero), Le(i, st.alloc)), Eq(Select(after, i), Select(before, i)))))
+		} else if dry.dryFnFresh[name] {
+			// every write goes to an object allocated by this function
+			i := Term{"i!lf", SInt}
+			st.assume(Forall([]Term{i}, Implies(And(Ge(i, TZero), Le(i, x.entry.alloc)), Eq(Select(after, i), Select(before, i)))))
 		}
 	}
 	na := st.fresh("alloc", SInt)
@@ -575,7 +615,7 @@ func (x *Exec) loopEnter(st *State, li *loopInfo, from *ssa.BasicBlock) {
 		}
 		st.iters[id] = &it
 	}
-	for _, g := range ls.Ghosts {
+	for g := range st.ghosts {
 		st.ghosts[g] = st.fresh("ghost_"+g, ArrSort(SInt))
 	}
 	phiVals = map[string]Val{}
@@ -591,6 +631,11 @@ func (x *Exec) loopEnter(st *State, li *loopInfo, from *ssa.BasicBlock) {
 		st.assume(env.evalBool(inv.X))
 	}
 	st.inLoop[li.ord] = true
+	st.curLoop = li.ord
+	if st.loopEvStart == nil {
+		st.loopEvStart = map[int]int{}
+	}
+	st.loopEvStart[li.ord] = len(st.events)
 	st.loopHeld = append([]HeldLock(nil), st.held...)
 	fr.prev, fr.block = from, li.header
 	fr.pc = len(x.headerPhis(li))
@@ -636,6 +681,17 @@ func (x *Exec) loopBackEdge(st *State, li *loopInfo, from *ssa.BasicBlock) {
 	env := x.loopEnv(st, li, phiVals)
 	for _, inv := range ls.Invariants {
 		st.oblige(fmt.Sprintf("inv-pres:loop%d/%d", li.ord, inv.N), x.tagsFor(inv.Tags, x.spec.Tags), env.evalBool(inv.X), "loop invariant preserved: "+inv.Text)
+	}
+	if ls.HasEmits {
+		g, why := x.matchEmitsLoop(st, env, ls.Emits, li.ord, st.loopEvStart[li.ord])
+		x.obligeEmits(st, fmt.Sprintf("emits:loop%d", li.ord), x.tagsFor(ls.EmitTags, x.spec.Tags), TTrue, g, why)
+	} else {
+		for i, e := range st.events {
+			if i >= st.loopEvStart[li.ord] && e.Loop == li.ord && x.isObservable(e) {
+				st.obligeStaticFail(fmt.Sprintf("emits:loop%d", li.ord), x.spec.Tags, "loop emits events but declares no per-iteration emits list")
+				break
+			}
+		}
 	}
 	if !sameLocks(st.held, st.loopHeld) {
 		st.obligeStaticFail(fmt.Sprintf("lock:loop%d", li.ord), []string{"C09"}, "lock set differs between loop entry and back edge")
